@@ -75,4 +75,13 @@ CHECKS = {
         "design_ref": "DESIGN.md section 3, C14",
         "note": "Child processes run with NUMBA_BOUNDSCHECK=1 (sanitizer-style). Only non-negative charge is added.",
     },
+    "C18": {
+        "technique": "round-trip property-based testing (save -> load) with the harness's own field-by-field comparator over generated detectors and container subsets; in-pipeline differential for the load_detector model",
+        "text": "Generated detectors of the four types with every subset of containers initialised (2-D/3-D photon, charge array and cluster table, pixel, signal, image uint8..64, "
+                "phase, scene sources, data nodes) are written to ASDF and read back through Detector.load and the typed loaders; geometry, environment, characteristics and every "
+                "container are compared field by field. A file made from detector X is loaded by the load_detector model at a generated pipeline position of a running detector Y; "
+                "the detector after the run and the returned result must hold X's data. Exploration.",
+        "design_ref": "DESIGN.md section 3, C18",
+        "note": "HDF5 skipped (h5py absent; counted). Containers compared by emptiness, shape, dtype kind and exact values.",
+    },
 }
